@@ -322,7 +322,10 @@ def check(ctx):
         ext = [t for t, _, _ in lp["calls"] if t[1][0] == "a" and t[1][2] == "extend"]
         app = [t for t, _, _ in lp["calls"] if t[1][0] == "a" and t[1][2] == "append"]
         pop = [t for t, _, _ in lp["calls"] if t[1][0] == "a" and t[1][2] == "pop"]
-        start = lp["before"].get("nodes")
+        recv = pop[0][1][1] if pop else ()
+        while recv and recv[0] in ("carried", "loop", "mut"):
+            recv = recv[2] if recv[0] in ("carried", "loop") else recv[1]
+        start = recv
         ok_r = (len(ext) == 1 and len(pop) == 1 and len(app) == 1
                 and ext[0][2] == (("call", ("a", pop[0], "all_input_nodes"), (), ()),)
                 and app[0][2] == (pop[0],)
